@@ -118,6 +118,39 @@ static bool enabled(const struct act *a)
 	return false;
 }
 
+static bool defer_settle, with_passwd;
+static void settle_point(void)
+{
+	if (!defer_settle) {
+		jx_settle();
+	}
+}
+
+static bool batchable(const struct act *a)
+{
+	return a->kind == K_FIN || a->kind == K_RESET || a->kind == K_REQ || a->kind == K_REPLY || a->kind == K_CLOCK || a->kind == K_GARBAGE || a->kind == K_BURST || a->kind == K_HTTPFIN;
+}
+
+static int reverse_hook(struct sim_ready *list, int n, int maxevents)
+{
+	(void)maxevents;
+	for (int i = 0; i < n / 2; i++) {
+		struct sim_ready t = list[i];
+		list[i] = list[n - 1 - i];
+		list[n - 1 - i] = t;
+	}
+	return n;
+}
+
+static void sweep(void)
+{
+	for (int s = 0; s < NS; s++) {
+		if (conn[s] >= 0 && sim_conn_closed_by_daemon(conn[s])) {
+			conn[s] = -1;
+		}
+	}
+}
+
 static void apply(const struct act *a)
 {
 	switch (a->kind) {
@@ -133,66 +166,72 @@ static void apply(const struct act *a)
 	case K_OPENFAIL: {
 		sim_fail_next(a->text, EINVAL, -1);
 		int c = cl_open(CL_RAW, ROLE_JET, ORG_DEFAULT);
-		jx_settle();
+		settle_point();
 		(void)c; /* the daemon must have dropped it; it is not tracked as a slot */
 		break;
 	}
 	case K_FIN:
 		sim_client_fin(conn[a->s]);
-		jx_settle();
+		settle_point();
 		conn[a->s] = -1;
 		break;
 	case K_RESET:
 		sim_client_reset(conn[a->s], RST_EPOLL);
-		jx_settle();
+		settle_point();
 		conn[a->s] = -1;
 		break;
-	case K_REQ:
-		jx_sendf(conn[a->s], "{\"id\":%d,%s}", ++nreq, a->text);
-		jx_settle();
+	case K_REQ: {
+		/* with a credential file loaded only elements that declare access groups are usable by (authenticated) peers */
+		const char *ins = with_passwd && strstr(a->text, "\"method\":\"add\"") ? strstr(a->text, "\"params\":{") : NULL;
+		if (ins != NULL) {
+			ins += strlen("\"params\":{");
+			jx_sendf(conn[a->s], "{\"id\":%d,%.*s\"access\":{\"fetchGroups\":[\"g1\"],\"setGroups\":[\"g1\"],\"callGroups\":[\"g1\"]},%s}", ++nreq, (int)(ins - a->text), a->text, ins);
+		} else {
+			jx_sendf(conn[a->s], "{\"id\":%d,%s}", ++nreq, a->text);
+		}
+		settle_point();
 		break;
+	}
 	case K_BURST:
 		for (int i = 0; i < 3; i++) {
 			jx_sendf(conn[a->s], "{\"id\":%d,\"method\":\"set\",\"params\":{\"path\":\"sa\",\"value\":%d}}", ++nreq, i);
 		}
-		jx_settle();
+		settle_point();
 		break;
 	case K_GARBAGE: {
 		struct bytebuf b = {0};
 		cl_frame_for(conn[a->s], &b, a->text);
 		sim_client_send(conn[a->s], b.p, b.len);
 		bb_free(&b);
-		jx_settle();
-		if (sim_conn_closed_by_daemon(conn[a->s])) {
+		settle_point();
+		if (!defer_settle && sim_conn_closed_by_daemon(conn[a->s])) {
 			conn[a->s] = -1;
 		}
 		break;
 	}
 	case K_REPLY:
 		jx_reply_routed(conn[a->s], "\"result\":true");
-		jx_settle();
+		settle_point();
 		break;
 	case K_CLOCK: {
 		uint64_t d;
 		sim_next_deadline(&d);
 		sim_advance(d - sim_now());
-		jx_settle();
+		settle_point();
 		break;
 	}
 	case K_HTTP:
 		http_probe = cl_open(CL_BYTES, ROLE_HTTP, ORG_DEFAULT);
 		sim_client_send(http_probe, a->text, strlen(a->text));
-		jx_settle();
+		settle_point();
 		break;
 	case K_HTTPFIN:
 		sim_client_fin(http_probe);
-		jx_settle();
+		settle_point();
 		break;
 	}
-	for (int s = 0; s < NS; s++) {
-		if (conn[s] >= 0 && sim_conn_closed_by_daemon(conn[s])) {
-			conn[s] = -1;
-		}
+	if (!defer_settle) {
+		sweep();
 	}
 }
 
@@ -229,9 +268,44 @@ static void run_histories(void)
 	struct sim_opts o = {0};
 	o.local_only = xp_param("local_only", 0) != 0;
 	char *pw = make_passwd_file();
-	o.passwd_file = pw;
+	with_passwd = xp_param("passwd", 0) != 0;
+	o.passwd_file = with_passwd ? pw : NULL;
 	jx_boot(&o);
 	struct bytebuf trail = {0};
+	int seedstate = (int)xp_param("seedstate", 0);
+	if (seedstate >= 1) {
+		if (with_passwd) {
+			static const char *const AUTH[] = {"open(A)", "open(B:ws)", "open(C:uds)", NULL};
+			for (int k = 0; AUTH[k] != NULL; k++) {
+				for (int i = 0; i < NACTS; i++) {
+					if (strcmp(ACTS[i].name, AUTH[k]) == 0) {
+						apply(&ACTS[i]);
+					}
+				}
+			}
+			for (int sl = 0; sl < NS; sl++) {
+				jx_sendf(conn[sl], "{\"id\":%d,\"method\":\"authenticate\",\"params\":{\"user\":\"adm\",\"password\":\"secret-two\"}}", ++nreq);
+			}
+			jx_settle();
+		}
+		/* non-initial start state: three peers, a state and a method, one (seedstate 2: three) routed request(s) in flight */
+		static const char *const SEED1[] = {"open(A)", "open(B:ws)", "open(C:uds)", "A:add(sa)", "B:add(mb)", "A:fetch", "C:set(sa)->routed", NULL};
+		static const char *const SEED2[] = {"B:set(sa)->routed", "A:call(mb)->routed", NULL};
+		for (int pass = 0; pass < seedstate && pass < 2; pass++) {
+			const char *const *list = pass == 0 ? SEED1 : SEED2;
+			for (int k = 0; list[k] != NULL; k++) {
+				for (int i = 0; i < NACTS; i++) {
+					if (strcmp(ACTS[i].name, list[k]) == 0 && enabled(&ACTS[i])) {
+						apply(&ACTS[i]);
+					}
+				}
+			}
+		}
+		if (sim_armed_timers() < 1) {
+			xp_harness_error("seed state %d: no routed request is in flight", seedstate);
+		}
+		bb_printf(&trail, "[seed state %d]", seedstate);
+	}
 	for (int d = 0; d < depth; d++) {
 		int en[NACTS + 1], n = 0;
 		for (int i = 0; i < nacts; i++) {
@@ -244,9 +318,40 @@ static void run_histories(void)
 		if (c == n) {
 			break;
 		}
-		bb_printf(&trail, "%s%s", d ? " ; " : "", ACTS[en[c]].name);
-		xp_logf("## step %d: %s", d + 1, ACTS[en[c]].name);
-		apply(&ACTS[en[c]]);
+		const struct act *a1 = &ACTS[en[c]];
+		bb_printf(&trail, "%s%s", trail.len ? " ; " : "", a1->name);
+		xp_logf("## step %d: %s", d + 1, a1->name);
+		/* deviation: this action and the next one become ready together and are harvested by ONE epoll_wait (1: in this order, 2: reversed) */
+		int ride = 0;
+		if (batchable(a1) && d + 1 < depth) {
+			ride = xp_choose(3, XP_DEV, "same-batch-with-next");
+		}
+		if (ride == 0) {
+			apply(a1);
+		} else {
+			defer_settle = true;
+			apply(a1);
+			int en2[NACTS + 1], n2 = 0;
+			for (int i = 0; i < nacts; i++) {
+				if (batchable(&ACTS[i]) && enabled(&ACTS[i])) {
+					en2[n2++] = i;
+				}
+			}
+			if (n2 > 0) {
+				int c2 = xp_choose(n2, XP_ACTION, "action-in-same-batch");
+				const struct act *a2 = &ACTS[en2[c2]];
+				bb_printf(&trail, " + %s%s", ride == 2 ? "(dispatched first) " : "", a2->name);
+				xp_logf("## step %d (same batch%s): %s", d + 2, ride == 2 ? ", reversed" : "", a2->name);
+				apply(a2);
+				d++;
+				xp_transition();
+			}
+			defer_settle = false;
+			sim_batch_hook = ride == 2 ? reverse_hook : NULL;
+			jx_settle();
+			sim_batch_hook = NULL;
+			sweep();
+		}
 		xp_transition();
 		uint64_t h = hash64(trail.p, trail.len, 5);
 		xp_state(h);
@@ -326,6 +431,6 @@ const struct driver drv_c07 = {
     .name = "c07",
     .property = "C07",
     .run = run,
-    .rule = "every sequence (every prefix too) of enabled actions up to the depth bound over {open/fin/reset of a raw-tcp, a websocket and a unix-socket peer; add, fetch, routed set/call, replies, virtual-clock expiry, authenticate right/again/wrong, passwd, config, unknown method, garbage; HTTP front-door probes that fail the handshake at different stages; accept-path failures of fcntl/setsockopt/getsockname; a burst overflowing the tiny routing table}, each ended by {close all -> idle baseline -> SIGTERM, SIGTERM at once}; oracle: peers, accounted heap, raw heap blocks, descriptors and timers at baseline, clean exit, no descriptor-hygiene event, accounted heap never above the cap; every execution is non-trivial; states = distinct action trails",
+    .rule = "every sequence (every prefix too) of enabled actions up to the depth bound over {open/fin/reset of a raw-tcp, a websocket and a unix-socket peer; add, fetch, routed set/call, replies, virtual-clock expiry, authenticate right/again/wrong, passwd, config, unknown method, garbage; HTTP front-door probes that fail the handshake at different stages; accept-path failures of fcntl/setsockopt/getsockname; a burst overflowing the tiny routing table}, each ended by {close all -> idle baseline -> SIGTERM, SIGTERM at once}; start states: nothing connected / three peers with elements, a fetch and 1 or 3 routed requests in flight; deviation (budget 1): two consecutive actions become ready together and are harvested by one epoll_wait, in either dispatch order; oracle: peers, accounted heap, raw heap blocks, descriptors and timers at baseline, clean exit, no descriptor-hygiene event, accounted heap never above the cap; every execution is non-trivial; states = distinct action trails",
     .assumptions = "descriptor numbers are never reused by the simulated kernel, so any use of a closed or never-issued number is observable|the raw-heap monitor counts malloc/calloc/realloc/free calls made by daemon objects (including the in-tree zlib and cJSON)",
 };
